@@ -1,8 +1,11 @@
 """Shared pieces of the CrossHair harnesses: tree builders, deep snapshots, partition/bound plumbing.
 Nothing here imports CrossHair; harness functions are ordinary Python that also run natively (replay)."""
+import logging
 import os
 
 from metapype.model.node import Node
+
+logging.disable(logging.CRITICAL)      # logging has an empty body in the harnesses (formatting under tracing stalls CrossHair)
 
 
 def part(default=0):
